@@ -236,6 +236,23 @@ const CORPUS: &[&str] = &[
     "DEFCIRCUIT C q:\n    DEFCAL X q:\n    NOP\n    WAIT",
     "DEFCIRCUIT C q:\n    DEFGATE G:\n    1\n",
     "DEFCIRCUIT C q:\n    DEFCIRCUIT D r:\n    X r",
+    // a qubit variable named like a keyword (found by mutation: `H%LT`)
+    "H %LT",
+    "C %NOT 0",
+    "SWAP-PHASES %DAGGER \"rf\" 0 \"ro\"",
+    "DEFCIRCUIT C %NOT:\n    X %NOT",
+    "MEASURE %MATRIX ro",
+    "H %pi %i %sin",
+    // a string with a newline inside a DEFCIRCUIT body (re-indented by CircuitDefinition::write)
+    "DEFCIRCUIT C:\n    PRAGMA x \"a\nb\"",
+    "DEFCAL X 0:\n    PRAGMA x \"a\nb\"",
+    "PRAGMA x \"a\nb\"\nINCLUDE \"a\n    b\"",
+    // a number followed by the name `i` in CALL arguments
+    "CALL f 1 i",
+    "CALL f 2.5 i[0]",
+    "CALL e -1e300-0i i",
+    "CALL f 1i i",
+    "CALL f x i 1",
     // ordering of definitions and body
     "X 0\nDECLARE ro BIT\nDEFGATE A:\n    1\nMEASURE 0 ro\nDEFFRAME 0 \"f\":\n    A: 1\nDEFWAVEFORM w:\n    1\nDEFCAL X 0:\n    NOP\nDEFCAL MEASURE 0:\n    NOP\nDEFCIRCUIT C:\n    NOP\nPRAGMA EXTERN f \"INTEGER\"\nY 1",
     // lexical variety
